@@ -681,6 +681,9 @@ func (ipcp *IPCPStateMachine) initializeRestartCount() {
 
 func (ipcp *IPCPStateMachine) zeroRestartCount() {
 	ipcp.restartCount = 0
+	// RFC 1661 zrc: wait one timeout period before proceeding to the final
+	// state; without a running timer the automaton would stay in Stopping
+	ipcp.startTimer()
 }
 
 func (ipcp *IPCPStateMachine) startTimer() {
